@@ -791,6 +791,79 @@ theorem compileTable_nodup (o : Owner) (ps : List (Param ν α)) :
     · simp only [hf, Bool.false_eq_true, if_false] at h
       exact ih tbl r h hn
 
+/-! ### `_user_priors` stays a dict (distinct keys) along every history -/
+
+/-- `_user_priors` is written by `set_prior` only (`dict[n] = p`); every other operation leaves it as it is -/
+theorem userPriors_step (s : St ν α) (op : Op ν α) :
+    (step s op).1.userPriors = s.userPriors ∨ ∃ n p, (step s op).1.userPriors = tset s.userPriors n p := by
+  have hwp : ∀ (n : ν) (f : Param ν α → Param ν α), (withParam s n f).1.userPriors = s.userPriors := by
+    intro n f
+    unfold withParam
+    simp only
+    split
+    · cases ownerOf s n <;> rfl
+    · rfl
+  have hwd : ∀ (n : ν) (c : Bool), (withDerived s n c).1.userPriors = s.userPriors := by
+    intro n c
+    unfold withDerived
+    simp only
+    split
+    · rfl
+    · split <;> rfl
+  cases op with
+  | enableFit n => exact .inl (hwp n _)
+  | disableFit n => exact .inl (hwp n _)
+  | setBoundary n a b => exact .inl (hwp n _)
+  | setFactorBoundary n a b => exact .inl (hwp n _)
+  | enableDerived n => exact .inl (hwd n _)
+  | disableDerived n => exact .inl (hwd n _)
+  | setMode n m =>
+    left
+    simp only [step]
+    split
+    · split
+      · rfl
+      · cases ownerOf s n <;> rfl
+    · rfl
+  | setPrior n p =>
+    simp only [step]
+    split
+    · exact .inr ⟨n, p, rfl⟩
+    · exact .inl rfl
+  | compile =>
+    left
+    simp only [step, compile]
+    split
+    · rfl
+    · split <;> rfl
+  | updateModel v =>
+    left
+    simp only [step, updateModel]
+    split
+    · rfl
+    · have := frame_applyUpdate s.compiled s s.compiledPriors v
+      simp only [frame, Prod.mk.injEq] at this
+      exact this.2.2.2.2.1
+
+/-- one operation keeps the keys of `_user_priors` pairwise distinct -/
+theorem userPriors_nodup_step (s : St ν α) (op : Op ν α) (h : (s.userPriors.map (·.1)).Nodup) :
+    ((step s op).1.userPriors.map (·.1)).Nodup := by
+  rcases userPriors_step s op with he | ⟨n, p, he⟩
+  · rw [he]; exact h
+  · rw [he]; exact tset_nodup _ n p h
+
+/-- **the keys of `_user_priors` stay pairwise distinct along every history** -/
+theorem userPriors_nodup_run (ops : List (Op ν α)) :
+    ∀ (s : St ν α), (s.userPriors.map (·.1)).Nodup → ((run s ops).userPriors.map (·.1)).Nodup := by
+  induction ops with
+  | nil => intro s h; exact h
+  | cons op ops ih => intro s h; simp only [run]; exact ih _ (userPriors_nodup_step s op h)
+
+/-- a fresh optimizer has an empty `_user_priors`: along every history from it the keys are pairwise distinct -/
+theorem userPriors_nodup_run_init (model obs : List (Param ν α)) (dm dob : List (Derived ν)) (ops : List (Op ν α)) :
+    ((run (initSt model obs dm dob) ops).userPriors.map (·.1)).Nodup :=
+  userPriors_nodup_run ops _ (by simp [initSt])
+
 end
 
 /-- proves `FitStep lx o F` for the loop body `F` of the regenerated `compile_params` -/
